@@ -53,3 +53,30 @@ def keyed(fpath, ss):
         cnt[base] = cnt.get(base, 0) + 1
         s_["key"] = "%s#%d" % (base, cnt[base])
     return ss
+
+
+def signature(node, params=()):
+    """what an unwrap/expect site unwraps, independent of the function it sits in and of local names:
+    the receiver chain as `<base>.<method>..` with the base reduced to `self.<field>`, `param`, a callee name or `?`"""
+    recv = node.get("recv", node)
+    b, ms = chain(recv)
+    names = [m[0] for m in ms]
+    b0 = resolve(b)
+    fp = field_path(b0)
+    if fp and fp[0] == "self":
+        base = "self." + ".".join(str(x) for x in fp[2])
+    elif b0.get("k") == "local" and any(canon(b0["id"]) == canon(p) for p in params if p is not None):
+        base = "param"
+    elif b0.get("k") in ("call", "mcall") and callee(b0):
+        base = callee(b0).split("::")[-1] + "()"
+    elif fp:
+        base = "local." + ".".join(str(x) for x in fp[2]) if fp[2] else "local"
+    else:
+        base = "?"
+    args = []
+    for m in ms:
+        for a in m[1]:
+            a0 = resolve(a)
+            if a0.get("k") == "local" and any(canon(a0["id"]) == canon(p) for p in params if p is not None):
+                args.append("param")
+    return base + "".join("." + n for n in names) + ("(%s)" % ",".join(args) if args else "")
